@@ -104,15 +104,36 @@ def all_per_tuple_loops(cx):
     return out
 
 
-def mentions_loopphi(t, header):
-    """set of locals l such that ('loopphi', (header, l)) or ('phi', (header, l), ..) occurs in t"""
+def mentions_loopphi(t, header, f=None):
+    """set of locals l such that ('loopphi', (header, l)) or ('phi', (header, l), ..) occurs in t.
+    With f given, a value modified in place by a call (`mod` term: the callee received a mutable alias) also depends
+    on everything else that call was handed (e.g. mem::swap(&mut coord[k], &mut level[i]))."""
     found = set()
+    seen_sites = set()
+    seen_phis = set()
 
     def visit(x):
         if x[0] in ("loopphi", "phi") and x[1][0] == header:
             found.add(x[1][1])
             if x[0] == "phi":
                 return True
+        if f is not None and x[0] == "loopphi" and x[1][0] != header and x[1] not in seen_phis:
+            # a value carried by an inner loop: look through to what it is built from
+            seen_phis.add(x[1])
+            d = f.phi_def(x)
+            if d is not None and d[0] == "phi":
+                for o in d[2]:
+                    mir.walk(o, visit)
+        if f is not None and x[0] == "mod" and isinstance(x[2], tuple) and isinstance(x[2][0], int):
+            bb = x[2][0]
+            if bb not in seen_sites:
+                seen_sites.add(bb)
+                tt = f.term(bb)
+                if tt["k"] == "call":
+                    c = f.call_term(tt, bb)
+                    if c[0] == "call":
+                        for a in c[2]:
+                            mir.walk(a, visit)
         return True
 
     mir.walk(t, visit)
